@@ -8,7 +8,8 @@ from checks import common as cm
 from checks import phys
 
 ID = 'C05'
-HASHSEED_EVERY = {'quick': 27, 'thorough': 60}     # one case in so many is also run under other string-hash seeds (harness._run_hashseed_invariant)
+HASHSEED_EVERY = {'quick': 40, 'thorough': 60}     # one case in so many is also run under other string-hash seeds (harness._run_hashseed_invariant)
+HASHSEED_N = 2          # child interpreters per such case (a C05 case costs seconds)
 BUDGET = {'quick': 80, 'thorough': 6000}
 REACH_N = 6
 DET_K = 2
@@ -258,4 +259,12 @@ def gen(rng, tier, idx):
     case = _gen_plain(rng, tier, idx)
     if True:
         cm.maybe_bystanders(rng, case['sched'], case['P'])
+    every = HASHSEED_EVERY.get(tier)
+    if every and idx % every == every // 2:
+        # the cases that are also run under other string-hash seeds pass several interdependent constants
+        # as keywords (the radial bounds and the explicit position of the profile peak between them)
+        ckw = case['ckw']
+        ckw.setdefault('rMin', 0.5)
+        ckw.setdefault('rMax', 9.0)
+        ckw.setdefault('rp', round(ckw['rMin'] + 0.3 * (ckw['rMax'] - ckw['rMin']), 4))
     return case
